@@ -7,7 +7,8 @@
 EXTENDS LoadUniverse, Json
 
 CONSTANTS MaxLoads, KnownDev,
-          PrefixIds     \* which prefixes of LoadUniverse!Prefixes the histories start from
+          PrefixIds,    \* which prefixes of LoadUniverse!Prefixes the histories start from
+          WithIntro     \* also emit, after EVERY load (accepted or refused), the introspection view of the root's schema
 
 VARIABLES st, hist, npre
 lvars == <<st, hist, npre>>
@@ -16,7 +17,8 @@ RECURSIVE RunPrefix(_, _, _, _)
 RunPrefix(s, docs, i, acc) ==
   IF i > Len(docs) THEN [s |-> s, hist |-> acc]
   ELSE LET r == LoadResult(s, docs[i], {}) IN
-       RunPrefix(r.s, docs, i + 1, Append(acc, [doc |-> docs[i], ok |-> r.ok, why |-> r.why, off |-> r.off, canon |-> Canon(r.s)]))
+       RunPrefix(r.s, docs, i + 1, Append(acc, [doc |-> docs[i], ok |-> r.ok, why |-> r.why, off |-> r.off, canon |-> Canon(r.s)]
+                                                    @@ (IF WithIntro /\ Queryable(r.s) THEN [intro |-> Intro(r.s)] ELSE <<>>)))
 
 LInit == \E p \in PrefixIds :
            LET r == RunPrefix(EmptySchema, Prefixes[p], 1, <<>>) IN st = r.s /\ hist = r.hist /\ npre = Len(r.hist)
@@ -25,7 +27,8 @@ Load(doc) ==
   /\ Len(hist) < npre + MaxLoads
   /\ UNCHANGED npre
   /\ st' = r.s
-  /\ hist' = Append(hist, [doc |-> doc, ok |-> r.ok, why |-> r.why, off |-> r.off, canon |-> Canon(r.s)])
+  /\ hist' = Append(hist, [doc |-> doc, ok |-> r.ok, why |-> r.why, off |-> r.off, canon |-> Canon(r.s)]
+                            @@ (IF WithIntro /\ Queryable(r.s) THEN [intro |-> Intro(r.s)] ELSE <<>>))
 LNext == \E doc \in LoadDocs : Load(doc)
 LSpec == LInit /\ [][LNext]_lvars
 
